@@ -48,7 +48,8 @@ m('m23', 'C10', P + 'rename/util.py', "        elif isinstance(node, (ast.AugAss
 m('m24', 'C10', P + '__init__.py', "rename_globals=rename_globals, preserve_globals=[entrypoint],", "rename_globals=rename_globals,", note='awslambda drops entrypoint')
 m('m25', 'C11', P + 'rename/renamer.py', "        return binding.new_mention_count()\n", "        return (binding.new_mention_count(), hash(binding.name or ''))\n", note='hash-seed dependent order')
 m('m26', 'C11', P + '__init__.py', "    filename = filename or 'python_minifier.minify source'\n", "    filename = filename or 'python_minifier.minify source'\n    if source in _memo:\n        return _memo[source]\n", note='memo ignoring options (part 1)')
-m('m27', 'C12', P + 'ministring.py', None, None, note='placeholder')
+m('m27', 'C12', P + 'ministring.py', "            self.quote: BACKSLASH + self.quote,\n        }\n\n        for c in self._s:\n            if c in escaped:\n                s += escaped[c]\n            else:\n                if self.safe_mode:\n                    unicode_value = ord(c)\n                    if unicode_value <= 0x7F:\n                        s += c\n                    elif unicode_value <= 0xFFFF:\n                        s += BACKSLASH + 'u' + format(unicode_value, '04x')\n                    else:\n                        s += BACKSLASH + 'U' + format(unicode_value, '08x')\n                else:\n                    s += c\n\n        return s\n\n    def to_long", "        }\n\n        for c in self._s:\n            if c in escaped:\n                s += escaped[c]\n            else:\n                if self.safe_mode:\n                    unicode_value = ord(c)\n                    if unicode_value <= 0x7F:\n                        s += c\n                    elif unicode_value <= 0xFFFF:\n                        s += BACKSLASH + 'u' + format(unicode_value, '04x')\n                    else:\n                        s += BACKSLASH + 'U' + format(unicode_value, '08x')\n                else:\n                    s += c\n\n        return s\n\n    def to_long", note='MiniString.to_short does not escape the active quote')
+m('m42', 'C12', P + 'f_string.py', "            elif c == '\\\\':\n                literal += '\\\\\\\\'\n", "", note='f_string.Str stops doubling backslashes')
 m('m28', 'C12', P + 'transforms/constant_folding.py', "        if not is_constant_node(node.right, (ast.Num, ast.NameConstant)):\n            return node\n", "        if not is_constant_node(node.right, (ast.Num, ast.NameConstant)) and not isinstance(node.right, ast.Call):\n            return node\n", note='call operand evaluated')
 m('m29', 'C13', P + '__main__.py', "        dest='remove_asserts',", "        dest='remove_debug_',", note='swapped dest (part)')
 m('m30', 'C13', P + '__main__.py', "        remove_debug=minification_args.remove_debug,\n", "", note='remove_debug not forwarded')
